@@ -190,6 +190,11 @@ def oracle(case, impl, run):
     for k in ('bonfShapes', 'holmShapes'):
         if any(s != case['shape'] for s in impl[k]):
             fails.append(('flags_keep_shape', f'{k}: {impl[k]} vs {case["shape"]}'))
+    if (len(impl['bonf']) != len(case['p']) or len(impl['holmFlags']) != len(case['p'])
+            or any(len(f) != size for f in impl['bonf'] + impl['holmFlags'])):
+        fails.append(('flags_keep_shape', f"{len(case['p'])} compared dataset(s) of {size} bins, flags reported for "
+                      f"{[len(f) for f in impl['bonf']]} / {[len(f) for f in impl['holmFlags']]} bins"))
+        return fails[:6]
     interesting = any_nan
     all_bonf, all_holm = [], []
     for ids, arr in enumerate(case['p']):
